@@ -169,6 +169,38 @@ def rule_d(ctx):
                 ok, detail = False, 'the RSocket subscription is cancelled although the stream already terminated'
         rep.add('C20.d', '%s _aio_sub / cancellation cancels the stream unless done' % pkg, aio, ok and n_cancel > 0,
                 detail or 'on cancellation: subscription.cancel() exactly when the done event is not set')
+        # the request is sent from inside the guarded region of that task: a dispose that arrives before the task has
+        # run cancels it without running its body, and then nothing may have been sent yet
+        sites = []
+        for fn in ctx.repo.all_functions():
+            if fn.module is not m:
+                continue
+            for node in walk_local(fn.node):
+                if isinstance(node, ast.Call) and isinstance(node.func, ast.Attribute) and \
+                        node.func.attr == 'subscribe' and isinstance(node.func.value, ast.Name) and \
+                        node.func.value.id == 'publisher':
+                    sites.append((fn, node))
+        oks = bool(sites)
+        why = 'the adapter never subscribes to the RSocket publisher' if not sites else ''
+        for fn, node in sites:
+            guarded = False
+            if fn is aio:
+                for t in walk_local(fn.node):
+                    if isinstance(t, ast.Try) and any(node in ast.walk(b) for b in t.body) and any(
+                            h.type is not None and 'CancelledError' in ast.unparse(h.type) and
+                            any(isinstance(c, ast.Call) and isinstance(c.func, ast.Attribute) and
+                                c.func.attr == 'cancel' and 'subscription' in ast.unparse(c.func.value)
+                                for c in ast.walk(h)) for h in t.handlers):
+                        guarded = True
+            if not guarded:
+                oks = False
+                why = ('%s subscribes to the RSocket publisher (sending the request) outside the task whose '
+                       'cancellation sends CANCEL: a dispose before that task has started leaves the request '
+                       'uncancelled' % fn.short)
+        rep.add('C20.d', '%s from_rsocket_publisher / the request is sent inside the cancellable task' % pkg,
+                sites[0][0] if sites else frp, oks,
+                why or 'publisher.subscribe() is in the try block of _aio_sub whose CancelledError handler cancels the '
+                       'subscription')
         # terminal signals mark the stream done
         c = m.classes['RxSubscriber'][-1]
         for name, kw in (('on_complete', {}), ('on_error', {}), ('on_next', {'is_complete': const(True)})):
